@@ -1,4 +1,5 @@
 #!/bin/bash
+# env: SKIP_SUITE=1 skips the test suite; PROPS="C01 C14" restricts the checks
 # usage: bp_variant.sh <patch.diff>  — behaviour-preserving variant: suite must pass, and ALL checks must stay silent (exit 0)
 set -u
 patch="$1"
@@ -8,14 +9,14 @@ rsync -a --exclude .git /repo/ "$d/repo/"
 cp /verif/known_findings.json "$d/verif/" 2>/dev/null
 if ! (cd "$d/repo" && patch -p1 --quiet < "$patch"); then echo "PATCH FAILED"; rm -rf "$d"; exit 3; fi
 export GOFLAGS=-mod=mod GOPROXY=off GOSUMDB=off GOTOOLCHAIN=local; unset GOWORK
-(cd "$d/repo" && go test -vet=off -count=1 ./... > "$d/suite.log" 2>&1) || { echo "SUITE FAILS (not behaviour-preserving?)"; tail -5 "$d/suite.log"; }
-for p in C01 C02 C03 C04 C05 C06 C07 C08 C09 C10 C11 C12 C13 C14 C15 C16 C17 C18 C19 C20; do
+[ -n "${SKIP_SUITE:-}" ] || (cd "$d/repo" && go test -vet=off -count=1 ./... > "$d/suite.log" 2>&1) || { echo "SUITE FAILS (not behaviour-preserving?)"; tail -5 "$d/suite.log"; }
+for p in ${PROPS:-C01 C02 C03 C04 C05 C06 C07 C08 C09 C10 C11 C12 C13 C14 C15 C16 C17 C18 C19 C20}; do
   mkdir -p "$d/verif-$p"; cp "$d/verif/known_findings.json" "$d/verif-$p/" 2>/dev/null
   ( /verif/bin/verifchk -prop "$p" -repo "$d/repo" -verif "$d/verif-$p" > "$d/$p.log" 2>&1; echo $? > "$d/$p.rc" ) &
   while [ $(jobs -r | wc -l) -ge 8 ]; do sleep 0.2; done
 done
 wait
-for p in C01 C02 C03 C04 C05 C06 C07 C08 C09 C10 C11 C12 C13 C14 C15 C16 C17 C18 C19 C20; do
+for p in ${PROPS:-C01 C02 C03 C04 C05 C06 C07 C08 C09 C10 C11 C12 C13 C14 C15 C16 C17 C18 C19 C20}; do
   rc=$(cat "$d/$p.rc")
   if [ "$rc" != 0 ]; then echo "  $p exit=$rc"; grep -A1 '^VIOLATION' "$d/$p.log" | grep -v '^VIOLATION\|^--' | sed "s#$d/##g" | cut -c1-260 | head -3; grep '^CHECKER-ERROR' "$d/$p.log" | head -2 | cut -c1-200; fi
 done
